@@ -5,7 +5,7 @@ from vf import core, e2, lib, spaces
 PID = "C15"
 LEVEL = "model_checking"
 REL = 1e-12
-RULE = ("games: S2 and T3|V6, sigma alphabets extended by 0.01*beta so both options are visible, every weak order; per game "
+RULE = ("games: S2 and T3|V6, sigma alphabets extended by 0.01*beta so both options are visible, every weak order (given as ranks or as scores, alternating); per game "
         "24 comparisons Model(s').rate(g, arg) == Model(arg).rate(g): tau arg in {0, 0.0, 1e-300, tau0, 2beta} x model tau "
         "in {0, tau0, 2beta}; limit_sigma arg in {True, False} x model limit_sigma in {False, True}; explicit None == "
         "omitted == own setting; two mixed tau+limit_sigma calls; on T3 (thorough: everywhere) additionally the FULL option matrix: model "
@@ -95,9 +95,12 @@ def eval_case(kind, cfg, game, ranks, only=None, table=None):
     base = {}
     nt = ev = 0
 
+    # the outcome is given as ranks for half of the weak orders and as scores for the other half (same on both sides)
+    enc = {"scores": [-x for x in ranks]} if (sum(ranks) + len(ranks)) % 2 else {"ranks": list(ranks)}
+
     def target(key):
         if key not in base:
-            base[key] = lib.rate(mk(kind, cfg, *key), game, ranks=list(ranks))
+            base[key] = lib.rate(mk(kind, cfg, *key), game, **enc)
         return base[key]
 
     for (label, key, mset, kw, tgt) in (table if table is not None else comparisons(cfg) + matrix(cfg)):
@@ -106,7 +109,7 @@ def eval_case(kind, cfg, game, ranks, only=None, table=None):
         ev += 1
         try:
             with core.watchdog():
-                got = lib.rate(mk(kind, cfg, *mset), game, ranks=list(ranks), **kw)
+                got = lib.rate(mk(kind, cfg, *mset), game, **enc, **kw)
                 want = target(tgt)
                 own = target(mset)
         except Exception as e:
